@@ -138,7 +138,7 @@ type WL struct {
 	Ranges   [][]string `json:"ranges,omitempty"` // request_ip_range of its pods
 	// AltRanges: request_ip_range after a change of the pod template; incarnations created with an odd C pick use it
 	AltRanges [][]string `json:"alt_ranges,omitempty"`
-	NoObject bool       `json:"no_object"`        // the workload object is never created (orphan pods)
+	NoObject  bool       `json:"no_object"` // the workload object is never created (orphan pods)
 }
 
 func (wl *WL) PodAnnotations() map[string]string {
